@@ -34,6 +34,7 @@ import (
 	"fmt"
 	"hash/fnv"
 	"os"
+	"os/exec"
 	"sort"
 	"strconv"
 	"strings"
@@ -222,6 +223,10 @@ func main() {
 	}
 	if len(os.Args) > 1 && os.Args[1] == "-probe" {
 		probe()
+		return
+	}
+	if len(os.Args) > 1 && os.Args[1] == "-child-unsupported" {
+		childUnsupported()
 		return
 	}
 	cfg := hlib.ParseFlags()
@@ -541,6 +546,7 @@ func generate(o *hlib.Out, cfg hlib.Config, sz sizes) {
 	for _, c := range cliCases {
 		emit(c)
 	}
+	checkUnsupported(o)
 	o.Stat("programs", len(progs))
 	o.Stat("programs_nonconstant", nonConst)
 	o.Stat("programs_with_output", withOutput)
@@ -609,6 +615,10 @@ func parseOp(l string) (mode, inJSON, prog string, err error) {
 func replay(o *hlib.Out, path string) {
 	f := newFq()
 	for _, l := range hlib.ReplayLines(path) {
+		if strings.Contains(l, opUnsupported) {
+			checkUnsupported(o)
+			continue
+		}
 		mode, inJSON, prog, err := parseOp(l)
 		if err != nil {
 			o.Verdict("BADOP", l+" :: "+err.Error())
@@ -689,5 +699,63 @@ func probe() {
 		fmt.Printf("%s\n  equal=%v\n  ref %s\n  fq  %s\n", p, ok, a, b)
 		ok2, c, d := compareCLI(p, in, jsonText(in))
 		fmt.Printf("  cli equal=%v\n  ref %s\n  fq  %s\n", ok2, c, d)
+	}
+}
+
+// ---------------------------------------------------------------- tojson of a value that is not JSON
+
+// A value of a Go type that is neither JSON nor a gojq.JQValue can reach `tojson` from pure jq through gojq's
+// uninitialised `?//` variables (see the assumptions). The reference's tojson fails recoverably (`invalid type`);
+// fq's must fail too — before e7de24cc its encoder recursed until `fatal error: stack overflow` killed the
+// process, which no recover() can catch: the check therefore runs in a child process.
+const opUnsupported = "x tojson-of-unsupported-go-value"
+
+func childUnsupported() {
+	f := newFq()
+	ctx, cancel := context.WithTimeout(context.Background(), longTimeout)
+	defer cancel()
+	it, err := f.i.Eval(ctx, [2]int{1, 2}, `tojson`, interp.EvalOpts{})
+	if err != nil {
+		fmt.Println("compile-error", err)
+		return
+	}
+	fmt.Println(drain(it, ctx).String())
+}
+
+func checkUnsupported(o *hlib.Out) {
+	// reference
+	ref := "error"
+	msg, panicked := hlib.Catch(func() string {
+		q, _ := gojq.Parse(`tojson`)
+		code, err := gojq.Compile(q)
+		if err != nil {
+			return "compile"
+		}
+		return drain(code.Run([2]int{1, 2}), context.Background()).String()
+	})
+	if !panicked {
+		ref = msg
+	}
+	cmd := exec.Command(os.Args[0], "-child-unsupported")
+	cmd.Env = append(os.Environ(), "GOMEMLIMIT=2GiB")
+	done := make(chan struct{})
+	var out []byte
+	var err error
+	go func() { out, err = cmd.CombinedOutput(); close(done) }()
+	select {
+	case <-done:
+	case <-time.After(10 * time.Minute):
+		_ = cmd.Process.Kill()
+		<-done
+	}
+	fq := strings.TrimSpace(string(out))
+	if len(fq) > 200 {
+		fq = fq[:200] + "…"
+	}
+	o.N++
+	if err == nil && fq == "error" && ref == "error" {
+		o.Verdict("OK", opUnsupported)
+	} else {
+		o.Verdict("PROPFAIL", fmt.Sprintf("%s%sref: %s ;;fq: child %v: %s", opUnsupported, sepObs, ref, err, fq))
 	}
 }
